@@ -180,8 +180,11 @@ pub fn gen_plan(g: &mut G, max_payload: usize) -> BodyPlan {
     if garbage > 0 {
         g.probe("garbage-after-frame");
     }
+    // (no draw) the framing of a body does not depend on the method or on which final status carries it
+    let status = [200u16, 200, 201, 206, 400, 404, 500, 503][(len + extra.len()) % 8];
+    let method = ["GET", "POST", "GET", "PUT", "DELETE", "PATCH", "OPTIONS"][(len / 3 + extra.len()) % 7];
     let mut wire = Wire::default();
-    wire.bytes = httpref::encode_head(200, "OK", &extra);
+    wire.bytes = httpref::encode_head(status, ["OK", "", "Whatever It Takes"][len % 3], &extra);
     wire.head_len = wire.bytes.len();
     wire.targets.push(wire.head_len - 1);
     wire.targets.push(wire.head_len - 2);
@@ -239,8 +242,8 @@ pub fn gen_plan(g: &mut G, max_payload: usize) -> BodyPlan {
     };
     BodyPlan {
         host_is_domain: g.chance(1, 2),
-        method: "GET",
-        status: 200,
+        method,
+        status,
         framing,
         payload,
         chunk_lens: chunks.iter().map(|c| c.len).collect(),
